@@ -2,7 +2,6 @@ import MJ.Props.C12
 #print axioms MJ.C12.helpers_matrix
 #print axioms MJ.C12.helper_mono
 #print axioms MJ.C12.mono
-#print axioms MJ.C12.modeGuard_mono
 #print axioms MJ.C12.step_mono
 #print axioms MJ.C12.mono_vm
 #print axioms MJ.C12.mono_vm_output
